@@ -35,6 +35,8 @@ type SessCase struct {
 	Ops    []int `json:"ops"`
 	FailAt int   `json:"fail_at_call"`
 	Accept int   `json:"failing_write_accepts"`
+	// PresetCT: the header map already holds another Content-Type when the session starts (a middleware's default).
+	PresetCT bool `json:"preset_content_type"`
 }
 
 func (c SessCase) String() string {
@@ -53,7 +55,10 @@ func (c SessCase) String() string {
 func judgeSession(c SessCase) (string, int, []string) {
 	sh := Shapes[c.Shape]
 	r := newRec()
-	r.failAt, r.accept, r.stripCT = c.FailAt, c.Accept, true
+	r.failAt, r.accept, r.stripCT = c.FailAt, c.Accept, !c.PresetCT
+	if c.PresetCT {
+		r.hdr.Set("Content-Type", "application/json")
+	}
 	req := httptest.NewRequest(http.MethodGet, "/", http.NoBody)
 	sess, err := sse.Upgrade(sh.Make(r), req)
 	v := func(sig, format string, args ...any) (string, int, []string) {
@@ -69,6 +74,8 @@ func judgeSession(c SessCase) (string, int, []string) {
 		return v("Upgrade rejects a writer that can flush", "Upgrade returned %v", err)
 	}
 	want := ""
+	faulted := false
+	bodyAtFault := ""
 	for _, op := range c.Ops {
 		wasFailed := r.failed
 		var oerr error
@@ -94,10 +101,17 @@ func judgeSession(c SessCase) (string, int, []string) {
 			if r.afterFail > 0 {
 				return v("the writer is used again within the operation whose write or flush failed", "%d more calls", r.afterFail)
 			}
-			break
+			// the fault was a one-off: the caller may try again, and the remaining operations must still keep
+			// the header-before-body order
+			faulted = true
+			bodyAtFault = string(r.body)
+			continue
 		}
 		if oerr != nil {
 			return v("an operation fails although the writer did not", "%s returned %v", opNames[op], oerr)
+		}
+		if faulted {
+			continue
 		}
 		if op == 3 && r.unflushed {
 			return v("Flush returned without flushing what was sent", "%d underlying flushes before, %d after, body bytes still unflushed", flushesBefore, r.flushes)
@@ -117,11 +131,14 @@ func judgeSession(c SessCase) (string, int, []string) {
 			return v("body bytes before the header was flushed", "no flush before the first body byte")
 		}
 	}
-	if !r.failed && string(r.body) != want {
+	if r.flushes > 0 && (len(r.ctOnWire) != 1 || r.ctOnWire[0] != "text/event-stream") {
+		return v("the flushed response does not carry exactly one Content-Type: text/event-stream", "Content-Type values at the first flush: %q", r.ctOnWire)
+	}
+	if !r.failed && !faulted && string(r.body) != want {
 		return v("the body is not the concatenation of the sent messages", "body %q, want %q", r.body, want)
 	}
-	if r.failed && !strings.HasPrefix(wantFull(c.Ops), string(r.body)) {
-		return v("the body written before the fault is not a prefix of the sent messages", "body %q", r.body)
+	if faulted && !strings.HasPrefix(wantFull(c.Ops), bodyAtFault) {
+		return v("the body written before the fault is not a prefix of the sent messages", "body %q", bodyAtFault)
 	}
 	return "", r.calls, r.log
 }
@@ -174,6 +191,8 @@ func (p *provRec) Publish(*sse.Message, []string) error { return nil }
 func (p *provRec) Shutdown(context.Context) error       { return nil }
 
 type ServCase struct {
+	// FailAt: the k-th underlying Write/flush call fails (0: none).
+	FailAt    int      `json:"fail_at_call"`
 	Shape     int      `json:"shape"`
 	Header    int      `json:"header"`     // index into headers
 	OnSession int      `json:"on_session"` // index into onSessions
@@ -187,6 +206,7 @@ var onSessionNames = []string{"nil", "(nil, true)", "([t], true)", "([], true)",
 func judgeServer(c ServCase) string {
 	sh := Shapes[c.Shape]
 	r := newRec()
+	r.failAt = c.FailAt
 	prov := &provRec{mode: c.Provider}
 	srv := &sse.Server{Provider: prov}
 	wrote401 := false
@@ -266,6 +286,14 @@ func judgeServer(c ServCase) string {
 	if prov.sub.Client == nil {
 		return v("the subscription has no client", "")
 	}
+	if c.FailAt > 0 {
+		// the provider's Send/Flush failed and it returned that error. If not a single body byte went out, the
+		// refusal came "before anything was sent": 500.
+		if len(r.body) == 0 && r.failed && (c.Provider == 2 || c.Provider == 3) && r.status != http.StatusInternalServerError {
+			return v("no 500 when the subscription ended with an error before anything was sent", "status %d", r.status)
+		}
+		return ""
+	}
 	switch c.Provider {
 	case 1:
 		if r.status != http.StatusInternalServerError {
@@ -323,31 +351,33 @@ var Check = &sqrun.Check{ID: "C16", QuickBudget: 60, ThoroughBudget: 600,
 		rec(nil)
 		for si := range Shapes {
 			for _, ops := range seqs {
-				base := SessCase{Shape: si, Ops: ops}
-				cases++
-				v, ncalls, log := judgeSession(base)
-				if v != "" {
-					report(v, base)
-					continue
-				}
-				if len(samples) < 2 && len(ops) == 3 && si == 1 {
-					samples = append(samples, base.String())
-				}
-				// every underlying call fails in turn; a Write with every short count
-				for k := 1; k <= ncalls; k++ {
-					maxAcc := 0
-					if strings.HasPrefix(log[k-1], "F") && !Shapes[si].FlushReports {
-						continue // a void Flush cannot report a failure: nothing to inject
+				for _, preset := range []bool{false, true} {
+					base := SessCase{Shape: si, Ops: ops, PresetCT: preset}
+					cases++
+					v, ncalls, log := judgeSession(base)
+					if v != "" {
+						report(v, base)
+						continue
 					}
-					if strings.HasPrefix(log[k-1], "W") {
-						fmt.Sscanf(log[k-1], "W%d", &maxAcc)
+					if len(samples) < 2 && len(ops) == 3 && si == 1 {
+						samples = append(samples, base.String())
 					}
-					for acc := 0; acc <= maxAcc; acc++ {
-						fc := SessCase{Shape: si, Ops: ops, FailAt: k, Accept: acc}
-						cases++
-						nontriv++
-						if v, _, _ := judgeSession(fc); v != "" {
-							report(v, fc)
+					// every underlying call fails in turn; a Write with every short count
+					for k := 1; k <= ncalls; k++ {
+						maxAcc := 0
+						if strings.HasPrefix(log[k-1], "F") && !Shapes[si].FlushReports {
+							continue // a void Flush cannot report a failure: nothing to inject
+						}
+						if strings.HasPrefix(log[k-1], "W") {
+							fmt.Sscanf(log[k-1], "W%d", &maxAcc)
+						}
+						for acc := 0; acc <= maxAcc; acc++ {
+							fc := SessCase{Shape: si, Ops: ops, FailAt: k, Accept: acc, PresetCT: preset}
+							cases++
+							nontriv++
+							if v, _, _ := judgeSession(fc); v != "" {
+								report(v, fc)
+							}
 						}
 					}
 				}
@@ -358,11 +388,16 @@ var Check = &sqrun.Check{ID: "C16", QuickBudget: 60, ThoroughBudget: 600,
 			for hi := range headers {
 				for oi := range onSessionNames {
 					for pm := 0; pm <= 3; pm++ {
-						sc := ServCase{Shape: si, Header: hi, OnSession: oi, Provider: pm, HeaderVal: headers[hi]}
-						cases++
-						nontriv++
-						if v := judgeServer(sc); v != "" {
-							report(v, sc)
+						for fail := 0; fail <= 3; fail++ {
+							if fail > 0 && (!Shapes[si].FlushReports || pm < 2 || hi > 1) {
+								continue
+							}
+							sc := ServCase{Shape: si, Header: hi, OnSession: oi, Provider: pm, HeaderVal: headers[hi], FailAt: fail}
+							cases++
+							nontriv++
+							if v := judgeServer(sc); v != "" {
+								report(v, sc)
+							}
 						}
 					}
 				}
